@@ -50,7 +50,7 @@ def limbs(v):
 
 
 def mags(quick):
-    vals = [0, 1, 63, 64, 127, 128, 255, 256, 8191, 8192, 2 ** 64, 2 ** 320 - 1]
+    vals = [0, 1, 63, 64, 127, 128, 255, 256, 8191, 8192, 2 ** 64, 2 ** 320 - 1, 2 ** 512 + 1]
     if not quick:
         vals += [2 ** 31, 2 ** 62 - 1, 2 ** 1024, 2 ** 4096 - 1, 2 ** 4096]
     return {tuple(limbs(v)) for v in vals}
